@@ -1,5 +1,6 @@
 import Hls.Playlist.MultiLemmas
 import Hls.Playlist.GrammarLemmas
+import Hls.Playlist.FloatLemmas
 /-!
 # C15 (multivariant half) — Playlist decoder is total; encoder output is grammatical M3U8
 
@@ -103,22 +104,10 @@ theorem c15_remarshal_multi (s : Str) (p : Multivariant) (h : Multivariant.unmar
     repeated, required attributes present, every value of the lexical class of its attribute, every
     URI line directly preceded by its EXT-X-STREAM-INF).
     `LexicalOK p`: the one attribute the library passes through verbatim, RESOLUTION, is a
-    decimal-resolution; `StartFloatOK p`: the float envelope at `p`'s TIME-OFFSET (see C14Multi). -/
-theorem c15_grammar_multi (p : Multivariant) (h : WFMultivariant p) (hl : LexicalOK p) (hf : StartFloatOK p) :
-    Grammar.acceptsMultivariant p.marshal = true := accepts_marshal_of_start h hl hf
-
-/-- the full statement, with the float envelope as a named hypothesis -/
-theorem c15_grammar_multi_partial (env : FloatEnvelope) (p : Multivariant)
-    (h : WFMultivariant p) (hl : LexicalOK p) : Grammar.acceptsMultivariant p.marshal = true :=
-  accepts_marshal_of_start h hl (OptAll_imp h.2.1 (fun _ ht => DurFloatOK_of_envelope env ht))
-
-/-- without EXT-X-START the grammar theorem needs no float hypothesis at all
-    (FRAME-RATE texts are `digits.digits` by construction of `FormatFloat`) -/
-theorem c15_grammar_multi_nostart (p : Multivariant) (h : WFMultivariant p) (hl : LexicalOK p) (hs : p.start = none) :
-    Grammar.acceptsMultivariant p.marshal = true := by
-  -- the grammar proof uses `FloatOK` only through its EXT-X-START component
-  have : OptAll p.start (fun t => DurFloatOK t.timeOffset) := by rw [hs]; trivial
-  exact accepts_marshal_of_start h hl this
+    decimal-resolution. -/
+theorem c15_grammar_multi (p : Multivariant) (h : WFMultivariant p) (hl : LexicalOK p) :
+    Grammar.acceptsMultivariant p.marshal = true :=
+  accepts_marshal h hl (FloatOK_of_envelope floatEnvelope floatEnvelope3 h)
 
 example : ∃ p : Multivariant, WFMultivariant p ∧ LexicalOK p ∧ StartFloatOK p :=
   ⟨{ version := 3, variants := [{ bandwidth := 1, codecs := [c!"avc1"], resolution := c!"1280x720", uri := c!"a.m3u8" }],
